@@ -241,6 +241,161 @@ def reference(case, S):
     return S.AND(cons), nv, sat, cnt
 
 
+# ------------------------------------------------- large instances: axioms --
+def _amo(xs):
+    return [((a, False), (b, False)) for a, b in itertools.combinations(xs, 2)]
+
+
+def _geq(xs, k):
+    """documented blasting of sum(xs) >= k into (n-k+1)-subsets"""
+    n = len(xs)
+    if k <= 0:
+        return []
+    if k > n:
+        return [()]
+    return [tuple((x, True) for x in sub) for sub in itertools.combinations(xs, n - k + 1)]
+
+
+def _leq(xs, k):
+    n = len(xs)
+    if k >= n:
+        return []
+    if k < 0:
+        return [()]
+    return [tuple((x, False) for x in sub) for sub in itertools.combinations(xs, k + 1)]
+
+
+def reference_axioms(case):
+    """The documented axioms of an instance as a set of clauses over NAMED
+    atoms ((prefix, index...), polarity); used where 2^n assignments are out of
+    reach, so that index slips that only appear from 10 elements on, or for
+    non-square shapes, are still seen."""
+    fam = case['fam']
+    a = case['args']
+    cl = []
+    if fam in ('php', 'gphp'):
+        if fam == 'php':
+            P, H, functional, onto = a
+            edges = [(i, j) for i in range(1, P + 1) for j in range(1, H + 1)]
+        else:
+            P, H, edges, functional, onto = a
+            edges = [tuple(e) for e in edges]
+        for i in range(1, P + 1):
+            row = [('p', i, j) for (u, j) in edges if u == i]
+            cl += _geq(row, 1)
+            if functional:
+                cl += _amo(row)
+        for j in range(1, H + 1):
+            col = [('p', i, j) for (i, v) in edges if v == j]
+            cl += _amo(col)
+            if onto:
+                cl += _geq(col, 1)
+    elif fam == 'rphp':
+        M, T, N = a
+        for u in range(1, M + 1):
+            cl += _geq([('p', u, v) for v in range(1, T + 1)], 1)
+        for v in range(1, T + 1):
+            cl += _amo([('p', u, v) for u in range(1, M + 1)])
+            for u in range(1, M + 1):
+                cl.append(((('p', u, v), False), (('r', v), True)))
+            cl.append(tuple([(('r', v), False)] + [(('q', v, w), True) for w in range(1, N + 1)]))
+        for w in range(1, N + 1):
+            for v1, v2 in itertools.combinations(range(1, T + 1), 2):
+                cl.append(((('r', v1), False), (('r', v2), False),
+                           (('q', v1, w), False), (('q', v2, w), False)))
+    elif fam == 'count':
+        M, p = a
+        blocks = list(itertools.combinations(range(1, M + 1), p))
+        for x in range(1, M + 1):
+            star = [('p',) + b for b in blocks if x in b]
+            cl += _leq(star, 1) + _geq(star, 1)
+    elif fam == 'matching':
+        n, edges = a
+        edges = [tuple(e) for e in edges]
+        for x in range(1, n + 1):
+            star = [('e', u, v) for (u, v) in edges if x in (u, v)]
+            cl += _leq(star, 1) + _geq(star, 1)
+    elif fam == 'subsetcard':
+        L, Rr, edges, equalities = a
+        edges = [tuple(e) for e in edges]
+        for u in range(1, L + 1):
+            row = [('x', u, v) for (a_, v) in edges if a_ == u]
+            d = len(row)
+            cl += _geq(row, (d + 1) // 2)
+            if equalities:
+                cl += _leq(row, (d + 1) // 2)
+        for v in range(1, Rr + 1):
+            col = [('x', u, v) for (u, b_) in edges if b_ == v]
+            d = len(col)
+            cl += _leq(col, d // 2)
+            if equalities:
+                cl += _geq(col, d // 2)
+    elif fam == 'bphp':
+        P, H = a
+        bits = max(0, (H - 1).bit_length())
+
+        def forbid(i, j):      # the clause false exactly when pigeon i encodes hole j
+            return tuple((('v', i, b), not ((j >> b) & 1)) for b in range(bits))
+        for i in range(1, P + 1):
+            for j in range(H, 2 ** bits):
+                cl.append(forbid(i, j))
+        for j in range(H):
+            for i1, i2 in itertools.combinations(range(1, P + 1), 2):
+                cl.append(forbid(i1, j) + forbid(i2, j))
+    else:
+        return None
+    return {frozenset((x, bool(pol)) for x, pol in c) for c in cl}
+
+
+def check_axioms(case, R=None):
+    """Clause set == documented axioms over named atoms (large instances)."""
+    from ref.sem import parse_name
+    fam = case['fam']
+    out = []
+
+    def bad(sym, what):
+        out.append({'key': '%s:axioms:%s' % (fam, sym), 'what': what, 'case': dict(case)})
+    try:
+        F = build(case)
+    except Exception as e:
+        bad('exception:' + type(e).__name__, 'building the formula raised %r' % (e,))
+        return out
+    names = list(F.all_variable_labels())
+    if len(names) != F.number_of_variables():
+        bad('names', '%d names for %d variables' % (len(names), F.number_of_variables()))
+        return out
+    atom = {}
+    for i, nm in enumerate(names, start=1):
+        k = parse_name(nm)
+        if k is None or (k[0],) + k[1] in atom.values():
+            bad('names', 'unparsable or duplicate name %r' % (nm,))
+            return out
+        atom[i] = (k[0],) + k[1]
+    got = set()
+    try:
+        for c in F.clauses():
+            got.add(frozenset((atom[abs(l)], l > 0) for l in c))
+    except KeyError as e:
+        bad('literal-range', 'literal outside the declared variables: %r' % (e.args,))
+        return out
+    exp = reference_axioms(case)
+    if R is not None:
+        R.nt = len(got) > 0
+        R.stats['axiom_instances'] += 1
+        R.stats['axiom_clauses_compared'] += len(exp)
+    # tautologies produced by the generator are harmless: ignore them on both sides
+    def taut(c):
+        return any((x, not p) in c for (x, p) in c)
+    got_n = {c for c in got if not taut(c)}
+    exp_n = {c for c in exp if not taut(c)}
+    if got_n != exp_n:
+        missing = sorted(map(sorted, exp_n - got_n))[:2]
+        extra = sorted(map(sorted, got_n - exp_n))[:2]
+        bad('clause-set', '%d documented axioms missing (e.g. %r), %d extra clauses (e.g. %r)' %
+            (len(exp_n - got_n), missing, len(got_n - exp_n), extra))
+    return out
+
+
 def _fact(n):
     r = 1
     for i in range(2, n + 1):
@@ -310,7 +465,10 @@ def check_case(case, R=None):
     return out
 
 
-replay = check_case
+def replay(case):
+    if case.get('oracle') == 'axioms':
+        return check_axioms(case)
+    return check_case(case)
 
 
 # ---------------------------------------------------------------- shards --
@@ -372,10 +530,74 @@ def cases(tier, seed):
     return cs
 
 
+def large_cases(tier, seed):
+    """Instances beyond the reach of truth tables, checked clause set vs
+    documented axioms: sizes with two-digit indices, non-square shapes,
+    non-powers of two, irregular graphs."""
+    thorough = tier == 'thorough'
+    cs = []
+
+    def add(fam, *args):
+        # CNF only: the pseudo-Boolean class keeps native cardinality constraints
+        cs.append({'fam': fam, 'args': list(args), 'cls': 'CNF', 'oracle': 'axioms'})
+    sizes = [(11, 10), (10, 11), (12, 3), (3, 12), (13, 13), (16, 9), (9, 17), (1, 12), (12, 1)]
+    if thorough:
+        sizes += [(20, 19), (17, 23), (32, 5), (5, 33), (25, 25)]
+    for (P, H) in sizes:
+        for f in (False, True):
+            for o in (False, True):
+                add('php', P, H, f, o)
+        add('bphp', P, H)
+    for (P, H) in [(3, 5), (4, 7), (5, 9), (6, 12), (7, 16), (5, 17), (3, 31), (3, 33)]:
+        add('bphp', P, H)
+    # bipartite graphs with two-digit vertices, irregular degrees, isolated vertices
+    def bip(L, Rr, rule):
+        return [(u, v) for u in range(1, L + 1) for v in range(1, Rr + 1) if rule(u, v)]
+    graphs = [(11, 12, bip(11, 12, lambda u, v: (u + v) % 3 == 0 or v == u)),
+              (12, 10, bip(12, 10, lambda u, v: (u * v) % 4 == 1 or (u == 12 and v >= 9))),
+              (10, 13, bip(10, 13, lambda u, v: abs(u - v) <= 1 and u != 5)),
+              (13, 11, bip(13, 11, lambda u, v: v in (1 + (u % 11), 1 + ((u + 3) % 11), 11)))]
+    if thorough:
+        graphs.append((16, 17, bip(16, 17, lambda u, v: (u + 2 * v) % 5 == 0 or u == v)))
+    for (L, Rr, es) in graphs:
+        for f in (False, True):
+            for o in (False, True):
+                add('gphp', L, Rr, es, f, o)
+        for eq in (False, True):
+            add('subsetcard', L, Rr, es, eq)
+    for (M, T, N) in [(10, 11, 12), (11, 10, 3), (3, 12, 10), (12, 3, 11)] + \
+            ([(13, 14, 15)] if thorough else []):
+        add('rphp', M, T, N)
+    for (M, p) in [(10, 2), (11, 2), (10, 3), (12, 4), (11, 10), (13, 3)]:
+        if comb(M, p) <= 600:
+            add('count', M, p)
+    # simple graphs on 10..13 vertices: cycle + chords, an isolated vertex, a pendant vertex
+    for n in (10, 11, 12, 13):
+        es = sorted({(min(i, i % n + 1), max(i, i % n + 1)) for i in range(1, n)} |
+                    {(1, n // 2 + 1), (2, n - 1), (3, 10)})
+        es = [e for e in es if e[0] != e[1] and n - 0 not in () ]
+        add('matching', n, es)
+        add('matching', n + 1, es)        # last vertex isolated
+    return cs
+
+
 def shards(tier, seed):
     cs = cases(tier, seed)
     k = 64 if tier == 'thorough' else 32
-    return [('s%03d' % i, 'run_cases', chunk) for i, chunk in enumerate(scope.stripe(cs, k))]
+    out = [('s%03d' % i, 'run_cases', chunk) for i, chunk in enumerate(scope.stripe(cs, k))]
+    for i, chunk in enumerate(scope.stripe(large_cases(tier, seed), 8)):
+        out.append(('x%03d' % i, 'run_axioms', chunk))
+    return out
+
+
+def run_axioms(chunk, R):
+    for case in chunk:
+        R.nt = False
+        vs = check_axioms(case, R)
+        R.case(sample={k: (v if k != 'args' else str(v)[:80]) for k, v in case.items()}
+               if R.evals % 9 == 0 else None, nontrivial=R.nt)
+        R.outcomes['axioms:' + case['fam']] += 1
+        R.extend(vs)
 
 
 def run_cases(chunk, R):
